@@ -333,6 +333,7 @@ func (s *sim) mainLoop() {
 			s.mu.Unlock()
 		}
 		progressed := false
+		s.registerFastSyncMutexes()
 		if s.flushObs() {
 			progressed = true
 		}
